@@ -453,8 +453,10 @@ func (p *Parser) parseSimpleExpression() (Node, error) {
 		// Get the line number for the unary node
 		line := token.Line
 
-		// Parse the operand
-		operand, err := p.parseSimpleExpression()
+		// Parse the operand together with its [index] and |filter suffixes,
+		// which bind tighter than the sign: -a[0] is -(a[0]), not x|length is
+		// not (x|length)
+		operand, err := p.parseOperand()
 		if err != nil {
 			return nil, err
 		}
